@@ -40,7 +40,8 @@ def SpecBases (seq : Str) (a b : Int) : Str := (seq.drop (a - 1).toNat).take (b 
 def revComp (l : Str) : Str := l.reverse.map complement
 
 /-- the alphabet the model's complement table covers -/
-def alphabet : List Char := ['A', 'C', 'G', 'T', 'N', 'a', 'c', 'g', 't', 'n']
+def alphabet : List Char := ['A', 'C', 'G', 'T', 'N', 'a', 'c', 'g', 't', 'n',
+  'R', 'Y', 'K', 'M', 'S', 'W', 'B', 'D', 'H', 'V', 'X', 'r', 'y', 'k', 'm', 's', 'w', 'b', 'd', 'h', 'v', 'x']
 
 /-- the twelve BED12 fields -/
 structure Bed12Fields where
